@@ -70,7 +70,7 @@ var preludeOps = func() map[string]bool {
 	for _, o := range []string{"and", "or", "not", "=>", "=", "ite", "+", "-", "*", "div", "mod", "<", "<=", ">", ">=", "select", "store", "distinct", "typeOf", "emptyset.Str", "SF", "predF", "true", "false", "null", "ZF"} {
 		m[o] = true
 	}
-	for _, s := range []string{"H.Int", "H.Bool", "H.Ref", "H.Str", "H.SeqRef", "H.SeqStr", "Set.Str"} {
+	for _, s := range []string{"H.Int", "H.Bool", "H.Ref", "H.Str", "H.SeqRef", "H.SeqStr", "Set.Str", "H.Set.Str"} {
 		m["sel."+s] = true
 		m["upd."+s] = true
 		m["add."+s] = true
